@@ -113,6 +113,8 @@ class Konst:       # opaque constants: orderings, layouts, unit
     def __init__(self, k): self.k = k
 class AtomicCell:
     def __init__(self, name): self.name = name
+class ResultV:     # Result<usize, usize> of a compare_exchange: Ok(old) iff ok, Err(old) otherwise
+    def __init__(self, ok, value): self.ok, self.value = ok, value
 class Opaque:      # immutable plain field of a shared object (symbolic value term)
     def __init__(self, t): self.t = t
 
@@ -253,6 +255,13 @@ class Exec:
         if v is None:
             raise Unsupported("uninitialised local " + repr(ref.base))
         for p in ref.path:
+            if isinstance(v, ResultV):
+                if isinstance(p, str) and p in ("asOk", "asErr"):
+                    continue
+                if p == 0:
+                    v = v.value
+                    continue
+                raise Unsupported("projection on a compare_exchange result")
             if isinstance(p, str) and p.startswith("as"):
                 if not isinstance(v, Struct) or v.tag != p[2:]:
                     raise Unsupported("variant downcast")
@@ -330,6 +339,8 @@ class Exec:
             v = self.load(self.place(m.group(1), frame, mem), mem)
             if isinstance(v, Struct) and v.tag in ("Some", "None"):
                 return bv(1 if v.tag == "Some" else 0)
+            if isinstance(v, ResultV):
+                return BV(f"(ite {v.ok} (_ bv0 64) (_ bv1 64))")
             raise Unsupported("discriminant of " + repr(v))
         m = re.fullmatch(r"(.+) as (.+) \((\w+)\)", rv)
         if m:
@@ -363,6 +374,13 @@ class Exec:
             elif op == "store":
                 path.events.append(Event("atomic", cell.name, "store", args[1].t, None, ordering))
                 yield mem, path, Konst("unit")
+            elif op in ("compare_exchange", "compare_exchange_weak"):
+                # (weak: spurious failure is not modelled; the strong semantics is one of its behaviours)
+                res = self.fresh("r")
+                exp, new = args[1].t, args[2].t
+                ordering = args[3].k if isinstance(args[3], Konst) else "?"
+                path.events.append(Event("atomic", cell.name, "cas", exp + "\x00" + new, res, ordering))
+                yield mem, path, ResultV(f"(= {res} {exp})", BV(res))
             elif op in ("swap", "fetch_add", "fetch_sub", "fetch_max", "fetch_min", "fetch_or", "fetch_and"):
                 res = self.fresh("r")
                 path.events.append(Event("atomic", cell.name, op, args[1].t, res, ordering))
@@ -503,7 +521,10 @@ def encode(sc, prop_terms, extra_defs=()):
                         cur = f"m_{c}_{s}"
                         if e.res:
                             eff.append(f"(= {e.res} {cur})")
+                        if e.op == "cas":
+                            exp_t, new_t = e.arg.split("\x00")
                         new = {"load": cur, "store": e.arg, "swap": e.arg,
+                               "cas": f"(ite (= {cur} {exp_t}) {new_t} {cur})" if e.op == "cas" else cur,
                                "fetch_add": f"(bvadd {cur} {e.arg})" if e.arg else cur,
                                "fetch_sub": f"(bvsub {cur} {e.arg})" if e.arg else cur,
                                "fetch_max": f"(ite (bvugt {e.arg} {cur}) {e.arg} {cur})" if e.arg else cur,
